@@ -1082,6 +1082,26 @@ func (x *Exec) CheckStructure(name string) string {
 	return ""
 }
 
+// NodeSlots is the number of nodes the index holds, tombstones included (0 = unknown).
+func (x *Exec) NodeSlots(name string) int {
+	idx, ok := x.E.DB.GetVectorIndex(name)
+	if !ok {
+		return 0
+	}
+	h, ok := idx.(*hnsw.Index)
+	if !ok {
+		return 0
+	}
+	nodes, _, _, _, _, _, _, _, _, _ := h.SnapshotData()
+	n := 0
+	for _, nd := range nodes {
+		if nd != nil {
+			n++
+		}
+	}
+	return n
+}
+
 // CheckGraphViews compares the engine's graph queries at time t (0 = now) with the model
 // for every node x relation of the universe.
 func (x *Exec) CheckGraphViews(t int64) string {
